@@ -20,7 +20,7 @@ RULE = (
 )
 ASSUMPTIONS = [
     "standard IPS reader: stops at the first 'EOF' at a record boundary; size 0 = RLE record",
-    "refusing (raising) is accepted only when some record of the block is not representable: offset <0 or >=2^24, data beyond 2^24, or a record offset equal to 0x454F46",
+    "refusing (raising) is accepted only when the block is not representable: some byte at an offset <0 or >=2^24 (before or after the copier +0x200), or a record offset equal to 0x454F46",
 ]
 EOF_OFF = 0x454F46
 
@@ -135,7 +135,8 @@ def run_history(res: Res, hist: dict) -> None:
             except Exception as e:  # noqa: BLE001 - a refusal
                 refused = (i, type(e).__name__)
                 eff = addr + delta
-                if representable(eff, length) and not touches_eof_offset(eff, length):
+                # a negative / >= 2^24 *raw* address may be refused even when +0x200 would make it encodable
+                if representable(eff, length) and representable(addr, length) and not touches_eof_offset(eff, length):
                     res.violate("representable-refused", f"write #{i} of {length} bytes at {addr:#x} (copier={copier}) raised {e!r}", hist)
                 else:
                     res.count("refused_unrepresentable")
